@@ -335,7 +335,7 @@ fn run_family(bytes: &[u8], ctx: &Ctx) -> CaseInfo {
     eval(nq, &goals, ctx)
 }
 
-/// Scale: a cascade of up to 400 (thorough 2000) pending constraints x(i) -> x(i+1), posted
+/// Scale: a cascade of up to 400 (thorough 1000) pending constraints x(i) -> x(i+1), posted
 /// along or against the direction in which values will flow, decided by binding one variable.
 fn run_chains(bytes: &[u8], ctx: &Ctx) -> CaseInfo {
     use crate::gen::scale;
@@ -616,7 +616,7 @@ pub fn def() -> PropertyDef {
         assumptions: vec!["operands are variables or integer literals (constructor precondition); intermediate integers within isize"],
         families: vec![
             Family { name: "clpz", max_len: 64, quick: 300_000, thorough: 6_000_000, run: run_family },
-            Family { name: "cascades", max_len: 96, quick: 20_000, thorough: 300_000, run: run_chains },
+            Family { name: "cascades", max_len: 96, quick: 20_000, thorough: 200_000, run: run_chains },
             Family { name: "branches", max_len: 96, quick: 400_000, thorough: 3_000_000, run: run_branches },
         ],
         fixed: vec![Fixed { name: "chain", run: chain }, Fixed { name: "property-text-examples", run: text_examples }],
